@@ -15,6 +15,7 @@ import (
 	"errors"
 	"fmt"
 	"io"
+	"math"
 	"os"
 	"path/filepath"
 	"strings"
@@ -95,6 +96,8 @@ func c12Alphabet() []c12Op {
 			a = append(a, c12Op{Kind: "seek", Off: off, Whence: wh})
 		}
 	}
+	// a relative Seek whose result is not representable (position > 0 or a non-empty file): rejected without moving, like lseek(2)
+	a = append(a, c12Op{Kind: "seek", Off: math.MaxInt64, Whence: 1}, c12Op{Kind: "seek", Off: math.MaxInt64, Whence: 2})
 	for _, src := range []string{"opaque", "len"} {
 		for _, n := range []int{1, 5} {
 			a = append(a, c12Op{Kind: "readfrom", N: n, Src: src})
@@ -184,6 +187,27 @@ func c12Step(f fileAPI, op c12Op, step int) c12Obs {
 		n, err = f.WriteAt(c12Data(step, op.N), op.Off)
 		o.N = int64(n)
 	case "seek":
+		if op.Off == math.MaxInt64 {
+			// only where the result is not representable (base > 0): from base 0 the seek is legal and leads to offsets
+			// beyond what either side is modelled for, so there it is left out (both sides do the same three probes)
+			cur, e1 := f.Seek(0, io.SeekCurrent)
+			end, e2 := f.Seek(0, io.SeekEnd)
+			if e1 != nil || e2 != nil {
+				err = e1
+				if err == nil {
+					err = e2
+				}
+				break
+			}
+			if _, e3 := f.Seek(cur, io.SeekStart); e3 != nil {
+				err = e3
+				break
+			}
+			if base := map[int]int64{1: cur, 2: end}[op.Whence]; base == 0 {
+				o.N = cur
+				break
+			}
+		}
 		o.N, err = f.Seek(op.Off, op.Whence)
 		if err != nil && c12Class(err) != "closed" {
 			o.Err, o.N = "rejected", 0
@@ -664,7 +688,7 @@ func init() {
 var c12Prop = &reg.Property{
 	ID:    "C12",
 	Level: "model_checking",
-	Rule: "all sequences of File method calls of the stated depth over a 41-symbol alphabet {Read 1|3|5, Write 1|3|5, ReadAt(3,@1)|(5,@3), WriteAt(3,@1)|(5,@4), Seek(off in {-6,-1,0,1,6}, whence in {0,1,2,3}), ReadFrom(opaque|Len source of 1|5 bytes), ReadFromWithConcurrency(opaque 5 bytes, 2) [reference: os.File.ReadFrom], WriteTo, Truncate 1|8, Stat, Close, plus the environment step 'the name is re-pointed to another file' (os-backed server only)} " +
+	Rule: "all sequences of File method calls of the stated depth over a 43-symbol alphabet {Read 1|3|5, Write 1|3|5, ReadAt(3,@1)|(5,@3), WriteAt(3,@1)|(5,@4), Seek(off in {-6,-1,0,1,6}, whence in {0,1,2,3}), Seek(MaxInt64, current|end), ReadFrom(opaque|Len source of 1|5 bytes), ReadFromWithConcurrency(opaque 5 bytes, 2) [reference: os.File.ReadFrom], WriteTo, Truncate 1|8, Stat, Close, plus the environment step 'the name is re-pointed to another file' (os-backed server only)} " +
 		"on a 5-byte file with MaxPacket=2, MaxConcurrentRequestsPerFile=2, x UseConcurrentReads x UseConcurrentWrites x UseFstat x {RequestServer over a byte-slice handler with OpenFile, os-backed Server}; the same sequence drives a real *os.File; after every step count, data, error class and Seek(0,io.SeekCurrent) are compared; " +
 		"after the sequence: file content, every method returns os.ErrClosed after Close, exactly one CLOSE for the handle in the tapped client->server bytes and nothing carrying the handle after it; states = sequences, transitions = steps x configurations, distinct non-trivial = sequences in which the offset leaves 0",
 	Assumptions: []string{
